@@ -104,11 +104,10 @@ def check(st, scn):
     # C01's oracle for this assembly (the vector's cutter), analytic model on the strings
     gg = rm.golden_gate(vec, mods, gen.geometry_of(V.cutter))
     if gg[0] != "product":
-        # the accepted vector instance is not a Golden Gate vector for its own cutter: C04's business, not C11's
-        st.filtered += 1
+        # the accepted vector instance is not cut by its own cutter where the class says (C04's business); what C11 asks
+        # -- is the product a valid next-level module holding the inserts -- is still decided below
         st.extra["vector-instance-not-cut-as-typed"] += 1
-        return None
-    if not rm.same_circle(o.seq.upper(), gg[1].upper()):
+    elif not rm.same_circle(o.seq.upper(), gg[1].upper()):
         st.violation("level", "level-product-differs-from-ligation-model", scn, gg[1], o.seq)
         return None
     prod = o.seq
